@@ -35,7 +35,7 @@ MINIMUMS = {
     "thorough": {"identity_graphs": 20000, "identity_with_deprecated": 14000, "workspaces": 1500, "jobs_repaired": 4500},
 }
 N = {"quick": (800, 48), "thorough": (24000, 1600)}
-TIMEOUT = {"quick": 900, "thorough": 10800}
+TIMEOUT = {"quick": 2400, "thorough": 14400}
 STATES = ["untouched", "cleanup", "dangling-link", "partially-repaired", "already-linked", "cleanup-after-link"]
 
 
